@@ -54,6 +54,8 @@ pub struct FlatZone {
     pub apex: DomainName,
     pub soa: Option<FlatSoa>,
     pub recs: Vec<FlatRec>,
+    /// the TTLs in `recs` are final (already clamped by whichever file they came from)
+    pub preclamped: bool,
 }
 
 #[derive(Clone, Debug, PartialEq, Eq)]
@@ -97,8 +99,8 @@ impl FlatZone {
     /// TTL a record is served with: raised to the SOA minimum in an authoritative zone.
     pub fn served_ttl(&self, ttl: u32) -> u32 {
         match &self.soa {
-            Some(s) => ttl.max(s.minimum),
-            None => ttl,
+            Some(s) if !self.preclamped => ttl.max(s.minimum),
+            _ => ttl,
         }
     }
 
